@@ -347,6 +347,27 @@ def run_property(pid, units, validate_ops, selftests, bounds, assumptions, uncov
         if r.get('cex'):
             if r['cex']['case'].get('kind') == 'pair':
                 replay_pair(rep, pid, name, r['cex'])
+            elif r['cex']['case'].get('kind') == 'set':
+                import c19
+                case = r['cex']['case']
+                steps, _ = c19.set_script(case)
+                line = 'set %d %s' % (case['bits'], ' '.join(steps))
+                verd = {}
+                for profile in ('dev', 'release'):
+                    ans = driver_run([line], profile)[0]
+                    verd[profile] = c19.judge_set(case, ans) + (ans,)
+                case.update(obligation=r['cex']['obligation'], unit=name, driver_line=line,
+                            replay={p: {'violates': v[0], 'what': v[1], 'driver_answer': v[2][:300]} for p, v in verd.items()})
+                path = save_replay(pid, case)
+                ok = [p for p, v in verd.items() if v[0]]
+                if ok:
+                    d = verd[ok[0]][1]
+                    key = 'set:%s:%s%s' % (case['op'], 'panic' if d.startswith('panic') else 'wrong', ':aliased' if case['alias'] else '')
+                    rep.violations.append((key, '`%s`: %s' % (line, d), path))
+                    print('CONFIRMED %s: %s' % (line, d))
+                else:
+                    rep.inconclusive.append('%s: counterexample did not reproduce (%s)' % (name, verd['dev'][1]))
+                    print('NOT-REPRODUCED %s: %s' % (line, verd['dev'][1]))
             elif r['cex']['case'].get('kind') == 'freevars':
                 import c09
                 c09.replay_freevars(rep, name, r['cex'])
